@@ -3,6 +3,7 @@
   flat message, and of a PO-shaped plural message, a name determines the source text.
 -/
 import SoyVerif.Lemmas.MsgRender
+import SoyVerif.Lemmas.MsgValidate
 import SoyVerif.Props.C10
 
 namespace SoyVerif.Model.Msg
